@@ -10,7 +10,8 @@ import numpy as np
 import pymbolic.primitives as p
 from pymbolic.cse import tag_common_subexpressions
 from pymbolic.mapper.cse_tagger import CSETagMapper, CSEWalkMapper
-from pymbolic.mapper.evaluator import CachedEvaluationMapper, EvaluationMapper
+from pymbolic.mapper.evaluator import (
+    CachedEvaluationMapper, EvaluationMapper, UnknownVariableError)
 import pymbolic.cse as csemod
 import pymbolic.mapper as mapmod
 
@@ -334,6 +335,49 @@ def c_once(ctx, case):
                 ctx.count("wrapped_calls_observed", sum(calls.values()))
 
 
+@check("C12.recover")
+def c_recover(ctx, case):
+    """An evaluation that FAILS below a wrapper leaves nothing behind in the evaluator: the same
+    evaluator, asked again, fails the same way while the environment is the same, and gives the
+    true value (child computed once) after the caller repaired the environment."""
+    exprs, fault = case
+    for cls in (EvaluationMapper, CachedEvaluationMapper):
+        calls = Counter()
+
+        def f(a):
+            calls[a] += 1
+            return a + 1
+        env = {"y": 11, "f": f}     # (f's arguments below are then pairwise different values)
+        if fault == "zero-divisor":
+            env["x"] = 0
+        m = cls(env)
+        ref_f = lambda a: a + 1  # noqa: E731
+        for phase in ("broken", "broken-again", "repaired", "repaired-again"):
+            if phase == "repaired":
+                env["x"] = 3            # the caller's own dict, repaired in place
+                if cls is CachedEvaluationMapper:
+                    m = cls(env)        # (its per-call memo table may hold earlier values)
+            for e in exprs:
+                before = Counter(calls)
+                want = refsem.outcome(lambda: refsem.ev(e, {**env, "f": ref_f}),
+                                      (UnknownVariableError,))
+                got = refsem.outcome(lambda: m(e), (UnknownVariableError,))
+                ctx.case(None)
+                ctx.count("recover_checked")
+                ctx.count("recover:" + phase + ":" + want[0])
+                if not refsem.same_outcome(got, want):
+                    ctx.fail("C12.recover", case, f"{phase}:{cls.__name__}:{fault}",
+                             f"one {cls.__name__}, {fault}, phase {phase}: {e} gave {short(got)}, "
+                             f"expected {short(want)} (env x={env.get('x', '<unbound>')})")
+                    continue
+                if want[0] == "v":
+                    for a, c in calls.items():
+                        if c - before.get(a, 0) > 1:
+                            ctx.fail("C12.recover", case, f"wrapped-child-twice:{cls.__name__}",
+                                     f"{cls.__name__} {phase}: while evaluating {e} the wrapped call "
+                                     f"f({a}) ran {c - before.get(a, 0)} times")
+
+
 def helper_cases():
     x, a = p.Variable("x"), p.Variable("a")
     s = p.Sum((x, 1))
@@ -396,6 +440,13 @@ def c_helpers(ctx, case):
                   and r[0, 0].child is s and r[0, 1] == 3 and not isinstance(r[0, 1], CSE)
                   and isinstance(r[1, 1], CSE) and isinstance(r[1, 0], CSE))
             expect("make_cse(object array)", r, ok, "componentwise wrapping of an object array")
+            # the argument is the caller's: wrapped components go into a NEW array
+            untouched = arr[0, 0] is s and arr[0, 1] == 3 and arr[1, 0] is w \
+                and isinstance(arr[1, 1], p.Product) and r is not arr \
+                and not np.shares_memory(r, arr)
+            expect("make_cse(object array) leaves its argument alone", arr, untouched,
+                   "the caller's array must not be written into or returned")
+            mvdata = {0: s, 1: p.Product((x, x)), 2: 5}
             if ok:
                 wider = not (scope is None or scope == p.cse_scope.EVALUATION)
                 expect("make_cse(object array) wrapper element", r,
@@ -411,6 +462,10 @@ def c_helpers(ctx, case):
             ok = isinstance(r, MultiVector) and isinstance(r.data[0], CSE) and r.data[0].child is s \
                 and isinstance(r.data[1], CSE) and r.data[2] == 5 and not isinstance(r.data[2], CSE)
             expect("make_cse(multivector)", r, ok, "coefficientwise wrapping of a multivector")
+            expect("make_cse(multivector) leaves its argument alone", mv,
+                   r is not mv and mv.data[0] is s and mv.data[2] == 5
+                   and not isinstance(mv.data[1], CSE),
+                   "the caller's multivector must not be written into or returned")
 
 
 @check("C12.tagger")
@@ -484,6 +539,19 @@ def workload(ctx):
                 if i < 1:
                     ctx.sample("once-per-wrapper", [str(e) for e in exprs])
                 ctx.run("C12.once", (exprs, xval))
+        for i in range(ctx.per_shard(ctx.pick(200, 4000))):
+            bad = rng.choice([p.Quotient(y, x), p.Remainder(p.Sum((y, 5)), x),
+                              p.Call(f, (p.FloorDiv(7, x),))])
+            w1 = p.CommonSubexpression(p.Sum((bad, p.Call(f, (y,)))), rng.choice([None, "u"]))
+            w0 = p.CommonSubexpression(p.Call(f, (p.Product((y, rng.randint(2, 5))),)))
+            w2 = p.CommonSubexpression(p.Sum((w0, w1)), "outer")
+            pieces = [w1, w2, w0, G.deep_rebuild(w1), p.Product((w0, w1)), p.Sum((w2, w1, w2))]
+            exprs = [rng.choice([p.Sum, p.Product])(tuple(rng.choice(pieces)
+                                                          for _ in range(rng.randint(2, 4))))
+                     for _ in range(rng.randint(1, 3))]
+            for fault in ("unbound", "zero-divisor"):
+                ctx.case(("recover", normal.typed_key(tuple(exprs)), fault), True, n=0)
+                ctx.run("C12.recover", (exprs, fault))
         if ctx.shard == 0:
             ctx.case(("helpers",), True, n=0)
             ctx.run("C12.helpers", None)
@@ -493,6 +561,9 @@ def workload(ctx):
     ctx.floor("sharing_checked", 1000)
     ctx.floor("handler_entries_observed", 5000)
     ctx.floor("once_checked", 2000)
+    ctx.floor("recover:broken:exc", 100)
+    ctx.floor("recover:broken:unk", 100)
+    ctx.floor("recover:repaired:v", 400)
     ctx.floor("wrapped_calls_observed", 1000)
     ctx.floor("helper_checks", 50)
     ctx.floor("handler:CSEMapper.map_sum", 1000)
